@@ -11,6 +11,7 @@ import (
 	"os/exec"
 	"path/filepath"
 	"strings"
+	"syscall"
 	"time"
 
 	z80 "github.com/koron-go/z80"
@@ -84,8 +85,38 @@ func (w *c18Nest) Write(p []byte) (int, error) {
 }
 func (w *c18Nest) Bytes() []byte { return w.b }
 
+// c18Flaky is a writer whose second Write fails (a full pipe, a transient error) and takes nothing; every
+// other Write succeeds. Every byte the program prints is still offered to the writer in order: what arrives is
+// everything except the byte of the failed call.
+type c18Flaky struct {
+	b []byte
+	n int
+}
+
+func (w *c18Flaky) Write(p []byte) (int, error) {
+	w.n++
+	if w.n == 2 {
+		return 0, fmt.Errorf("transient write error injected by the harness")
+	}
+	w.b = append(w.b, p...)
+	return len(p), nil
+}
+func (w *c18Flaky) Bytes() []byte { return w.b }
+
+func isSubsequence(a, b []byte) bool {
+	i := 0
+	for _, x := range b {
+		if i < len(a) && a[i] == x {
+			i++
+		}
+	}
+	return i == len(a)
+}
+
 func newC18Writer(kind int) c18Writer {
 	switch kind {
+	case 3:
+		return &c18Flaky{}
 	case 1:
 		return &c18Plain{}
 	case 2:
@@ -243,7 +274,13 @@ func c18RunW(calls []c18Call, wk [2]int) []string {
 	}
 	if wantSplit >= 0 {
 		// output before the host replaced the writer belongs to the first writer, everything after to the second
-		if !bytes.Equal(out.Bytes(), want[:wantSplit]) || !bytes.Equal(out2.Bytes(), want[wantSplit:]) {
+		if _, flaky := out.(*c18Flaky); flaky {
+			// the first writer failed once: what it holds is what it accepted (some subsequence of what was printed
+			// up to the replacement); the replacement writer must receive everything printed after it was installed
+			if !isSubsequence(out.Bytes(), want[:wantSplit]) || !bytes.Equal(out2.Bytes(), want[wantSplit:]) {
+				d = append(d, fmt.Sprintf("the first console writer failed on its 2nd Write and was then replaced (SetStdout): the replacement got % X (want % X); the first holds % X (printed before the replacement: % X)", out2.Bytes(), want[wantSplit:], out.Bytes(), want[:wantSplit]))
+			}
+		} else if !bytes.Equal(out.Bytes(), want[:wantSplit]) || !bytes.Equal(out2.Bytes(), want[wantSplit:]) {
 			d = append(d, fmt.Sprintf("SetStdout between two calls: first writer got % X (want % X), second writer got % X (want % X)", out.Bytes(), want[:wantSplit], out2.Bytes(), want[wantSplit:]))
 		}
 	} else if !bytes.Equal(out.Bytes(), want) {
@@ -261,7 +298,9 @@ func c18RunW(calls []c18Call, wk [2]int) []string {
 			d = append(d, "two machines in one process: "+nw.bad)
 		}
 	}
-	if nw := strings.Count(warn.String(), "\n"); nw != wantWarn {
+	_, flaky1 := out.(*c18Flaky)
+	_, flaky2 := out2.(*c18Flaky)
+	if nw := strings.Count(warn.String(), "\n"); nw != wantWarn && !flaky1 && !flaky2 { // (a failed write may be worth a warning of its own)
 		d = append(d, fmt.Sprintf("warnings: want %d got %d (%q)", wantWarn, nw, warn.String()))
 	}
 	// nothing else in memory changed (stack area below SP is dead)
@@ -288,7 +327,7 @@ func checkC18(c *Ctx) {
 			for _, cl := range calls {
 				names = append(names, cl.String())
 			}
-			c.Report("c18/cpm:"+key, n, "", c18Case{calls, wk}, append([]string{fmt.Sprintf("call sequence %v; JP 0; console writer kinds %v (0 bytes.Buffer, 1 Write only, 2 Write only with a second machine printing inside Write)", names, wk)}, d...))
+			c.Report("c18/cpm:"+key, n, "", c18Case{calls, wk}, append([]string{fmt.Sprintf("call sequence %v; JP 0; console writer kinds %v (0 bytes.Buffer, 1 Write only, 2 Write only with a second machine printing inside Write, 3 a writer whose 2nd Write fails)", names, wk)}, d...))
 			return false
 		}
 		return true
@@ -396,6 +435,17 @@ func checkC18(c *Ctx) {
 			}
 		}
 	}
+	// a console writer that fails once and is then replaced
+	for k2 := 0; k2 < 2 && ok; k2++ {
+		wk = [2]int{3, k2}
+		for _, a := range calls[:6] {
+			for _, b := range calls[:6] {
+				if ok {
+					ok = run("setstdout", []c18Call{a, b, {Kind: "setstdout"}, a, b}) && run("setstdout", []c18Call{calls[3], {Kind: "setstdout"}, b})
+				}
+			}
+		}
+	}
 	// every writer kind alone: all 256 byte values and the call pairs
 	for k1 := 1; k1 < 3 && ok; k1++ {
 		wk = [2]int{k1, 0}
@@ -422,7 +472,7 @@ func checkC18(c *Ctx) {
 	c.Transitions = n
 	c.Traces = n
 	c.Exhaustive = true
-	c.Rule = fmt.Sprintf("real tinycpm machine + real CPU.Run, a breakpoint after every call: function 2 with all 256 E values; function 9 with every string over the alphabet {00,23,25,7F,80,FF,'A'} of length 0..3 (%d strings) at addresses {0200,7FFF,FD00} and ending right below the BDOS entry (terminator at FE05), every single non-'$' byte value, lengths {0,1,255,256,257,4095,4096} across page boundaries; all call sequences of length <=%d over a 15-letter alphabet {fn2(x), fn2('$'), fn2(0), 3 fn9 strings, unsupported fn 0/1/10/255, OUT (0)/(1)/(255), IN (0)/(7)}; the host replacing the console writer (SetStdout) between two calls, for every pair of writer kinds {bytes.Buffer, a writer with only Write, such a writer inside whose Write a second independent tinycpm machine prints to its own console}; every writer kind alone with all 256 byte values and all call pairs; exit via JP 0; the command-line runner cmd/zexdoc (built from the current tree) on generated program images as zexdoc.cim / zexall.cim (-all), stdout through a pipe: all call pairs, long output (0..70000 bytes), runs that end abnormally (unsupported function, HALT in the program, unwritable -memprof path): stdout carries exactly the bytes printed before the end, the exit status is 0 exactly for the normal end. Oracle: console writer receives exactly the specified bytes in order; after every call PC is the instruction after the CALL, SP and the caller's code bytes are unchanged; final halt at FF03; exactly one warning per port!=0 write and per port read; nothing else in memory changed. Non-trivial: every case with at least one call (counted).", len(strs), depth)
+	c.Rule = fmt.Sprintf("real tinycpm machine + real CPU.Run, a breakpoint after every call: function 2 with all 256 E values; function 9 with every string over the alphabet {00,23,25,7F,80,FF,'A'} of length 0..3 (%d strings) at addresses {0200,7FFF,FD00} and ending right below the BDOS entry (terminator at FE05), every single non-'$' byte value, lengths {0,1,255,256,257,4095,4096} across page boundaries; all call sequences of length <=%d over a 15-letter alphabet {fn2(x), fn2('$'), fn2(0), 3 fn9 strings, unsupported fn 0/1/10/255, OUT (0)/(1)/(255), IN (0)/(7)}; the host replacing the console writer (SetStdout) between two calls, for every pair of writer kinds {bytes.Buffer, a writer with only Write, such a writer inside whose Write a second independent tinycpm machine prints to its own console}; a writer whose 2nd Write fails, replaced afterwards (the replacement receives everything printed after it was installed); every writer kind alone with all 256 byte values and all call pairs; exit via JP 0; the command-line runner cmd/zexdoc (built from the current tree) on generated program images as zexdoc.cim / zexall.cim (-all), stdout through a pipe: all call pairs, long output (0..70000 bytes), runs that end abnormally (unsupported function, HALT in the program, unwritable -memprof path), the image delivered through a named pipe in two parts: stdout carries exactly the bytes printed before the end, the exit status is 0 exactly for the normal end. Oracle: console writer receives exactly the specified bytes in order; after every call PC is the instruction after the CALL, SP and the caller's code bytes are unchanged; final halt at FF03; exactly one warning per port!=0 write and per port read; nothing else in memory changed. Non-trivial: every case with at least one call (counted).", len(strs), depth)
 	c.Bound = fmt.Sprintf("call sequences <=%d", depth)
 	c.Sample(c18Case{Calls: []c18Call{{Kind: "fn9", Str: []uint8{0xFF, 0x00, 'z'}, Addr: 0x03FE}, {Kind: "out", Port: 1}, {Kind: "fn2", E: '$'}}})
 	c.Assume("strings lie outside page 0, the BIOS pages and the stack (statement: 'arbitrary addresses outside the BIOS pages')")
@@ -450,6 +500,8 @@ func c18Tool(c *Ctx, alphabet []c18Call) int64 {
 		End     string    `json:"end"` // jp0, halt, none (falls into an unsupported call)
 		All     bool      `json:"all_flag"`
 		MemProf bool      `json:"unwritable_memprof"`
+		// Fifo: the image file is a named pipe whose writer delivers the image in two parts with a pause in between
+		Fifo bool `json:"image_through_fifo_in_two_parts"`
 	}
 	var n int64
 	one := func(tc tcase) bool {
@@ -512,9 +564,31 @@ func c18Tool(c *Ctx, alphabet []c18Call) int64 {
 		}
 		os.Remove(filepath.Join(dir, "zexdoc.cim"))
 		os.Remove(filepath.Join(dir, "zexall.cim"))
-		if err := os.WriteFile(filepath.Join(dir, name), full, 0o644); err != nil {
-			c.Capped("framework: " + err.Error())
-			return false
+		fifoDone := make(chan struct{})
+		if tc.Fifo {
+			path := filepath.Join(dir, name)
+			if err := syscall.Mkfifo(path, 0o644); err != nil {
+				c.Set("fifo_cases", "skipped: "+err.Error())
+				return true
+			}
+			go func() {
+				defer close(fifoDone)
+				f, err := os.OpenFile(path, os.O_WRONLY, 0)
+				if err != nil {
+					return
+				}
+				half := len(full) / 2
+				f.Write(full[:half])
+				time.Sleep(150 * time.Millisecond) // a stimulus, not an oracle: a complete reader is right whatever the timing
+				f.Write(full[half:])
+				f.Close()
+			}()
+		} else {
+			close(fifoDone)
+			if err := os.WriteFile(filepath.Join(dir, name), full, 0o644); err != nil {
+				c.Capped("framework: " + err.Error())
+				return false
+			}
 		}
 		ctx, cancel := context.WithTimeout(context.Background(), 2*time.Minute)
 		defer cancel()
@@ -523,6 +597,16 @@ func c18Tool(c *Ctx, alphabet []c18Call) int64 {
 		var so, se bytes.Buffer
 		cmd.Stdout, cmd.Stderr = &so, &se
 		err := cmd.Run()
+		if tc.Fifo {
+			// unblock a writer whose reader went away early, then wait for it
+			if f, e := os.OpenFile(filepath.Join(dir, name), os.O_RDONLY|syscall.O_NONBLOCK, 0); e == nil {
+				<-fifoDone
+				f.Close()
+			} else {
+				<-fifoDone
+			}
+			os.Remove(filepath.Join(dir, name))
+		}
 		n++
 		var d []string
 		if !bytes.Equal(so.Bytes(), want) {
@@ -575,6 +659,13 @@ func c18Tool(c *Ctx, alphabet []c18Call) int64 {
 		ok = one(tcase{Calls: []c18Call{reloc(a, 0)}, End: "halt"}) &&
 			one(tcase{Calls: []c18Call{reloc(a, 0), reloc(a, 1)}, End: "jp0", MemProf: true}) &&
 			one(tcase{Calls: []c18Call{reloc(a, 0), {Kind: "unsupported", Fn: 3}}, End: "jp0"})
+	}
+	// the image arrives through a named pipe in two parts
+	for _, a := range alphabet[3:6] {
+		if !ok {
+			return n
+		}
+		ok = one(tcase{Calls: []c18Call{reloc(a, 0), reloc(alphabet[3], 1)}, End: "jp0", Fifo: true})
 	}
 	// long output: around the usual buffer sizes
 	for _, l := range []int{0, 1, 4095, 4096, 4097, 8192, 65536 - 0x0400 - 0x1100, 16384} {
